@@ -432,7 +432,7 @@ register(C02())
 # C06 — deserialise -> serialise reproduces any parseable stream
 # --------------------------------------------------------------------------
 
-SERDES_KINDS = F.ALL_KINDS + ["f_block_cut"] * 4 + ["f_coeff_huge", "f_coeff_huge", "f_offsets", "f_offsets", "f_uint", "f_uint", "f_lenbyte", "f_lenbyte", "f_fixed", "f_coeff"]
+SERDES_KINDS = F.ALL_KINDS + ["f_wrap_unit"] * 3 + ["f_block_cut"] * 4 + ["f_coeff_huge", "f_coeff_huge", "f_offsets", "f_offsets", "f_uint", "f_uint", "f_lenbyte", "f_lenbyte", "f_fixed", "f_coeff"]
 
 
 class C06(ByteChanSpec):
@@ -653,6 +653,10 @@ class AcceptedSpec(ByteChanSpec):
         if v.verdict == "oos":
             stats["discard:out-of-scope"] += 1
             return Outcome(DISCARD, events, stats=stats, ticks=v.reads)
+        if v.verdict == "reject":
+            out = self.judge_rejected(case, data, changed, v, events, stats)
+            if out is not None:
+                return out
         if v.verdict != "accept":
             stats["discard:not-accepted"] += 1
             if not case["faults"] and "cfg" in case:
@@ -665,6 +669,11 @@ class AcceptedSpec(ByteChanSpec):
                 stats["accepted_after:" + f.get("kind", f["k"])] += 1
         key = "%s|%s|pics=%d" % (cfg_class(case.get("cfg") or case.get("tc") or case.get("hist")), self.kinds_of(case), len(v.pics))
         return self.judge_accepted(case, data, changed, v, events, stats, key)
+
+    def judge_rejected(self, case, data, changed, v, events, stats):
+        """Hook: what a property still says about a stream the validator
+        rejects (default: nothing — outside the domain)."""
+        return None
 
     def extra_evidence(self, merged):
         st = merged["stats"]
@@ -812,6 +821,18 @@ class C08(AcceptedSpec):
 register(C08())
 
 
+def _rejected_inside_parse_info(exc):
+    """True if the ConformanceError was raised while the validator was
+    parsing a parse_info header (so every earlier data unit is complete)."""
+    tb = exc.__traceback__
+    while tb is not None:
+        co = tb.tb_frame.f_code
+        if co.co_name == "parse_info" and co.co_filename.replace("\\", "/").endswith("decoder/stream.py"):
+            return True
+        tb = tb.tb_next
+    return False
+
+
 class C09(AcceptedSpec):
     prop = "C09"
     title = "Every decoded picture is well-formed"
@@ -825,6 +846,25 @@ class C09(AcceptedSpec):
         "bytes coded after the data unit's parse_info (read by the harness from the raw bytes), and callbacks == picture "
         "units + zero-slice fragments. non-trivial = accepted although a fault changed the bytes."
     )
+
+    def judge_rejected(self, case, data, changed, v, events, stats):
+        # "exactly one picture is output per picture data unit": a stream that
+        # is rejected while the NEXT parse_info is being parsed has completed
+        # every picture data unit before it, so each of them must already have
+        # been output (a decoder may not sit on a finished picture)
+        if v.exc is None or not _rejected_inside_parse_info(v.exc):
+            return None
+        codes = [c for (_o, c, _n, _p) in v.unit_codes]
+        whole = sum(1 for c in codes if c in PICTURE_CODES)
+        frags = any(c in FRAGMENT_CODES for c in codes)
+        stats["rejected-at-parse-info:picture-count-checked"] += 1
+        if (len(v.pics) < whole) or (not frags and len(v.pics) != whole):
+            return Outcome(
+                VIOLATION, events, sig="C09/picture-not-output-before-rejection",
+                detail="the validator rejected the stream (%s) while parsing the parse_info after %d completed picture data unit(s), but only %d picture(s) had been output" % (type(v.exc).__name__, whole, len(v.pics)),
+                stats=stats, nontrivial=changed, key="rejected-at-parse-info", ticks=v.reads,
+            )
+        return None
 
     def judge_accepted(self, case, data, changed, v, events, stats, key):
         def viol(sig, detail):
